@@ -95,7 +95,14 @@ impl Frame {
 
         match result {
             Ok(0) => Restion::None,
-            Ok(_) => Self::from_stream_inner(stream, buf).into(),
+            Ok(n) => {
+                // Only part of the header may have arrived, so read the rest of it before parsing
+                if n < buf.len() && stream.read_exact(&mut buf[n..]).is_err() {
+                    return Restion::Err(WebsocketError::ReadError);
+                }
+
+                Self::from_stream_inner(stream, buf).into()
+            }
             Err(ref e) if e.kind() == std::io::ErrorKind::WouldBlock => Restion::None,
             Err(_) => Restion::Err(WebsocketError::ReadError),
         }
